@@ -2,7 +2,7 @@
 """C08 — DoublyLinkedList: correspondence of windpyutils.structures.lists with Model/Dll.lean"""
 import random
 
-from ..core import Case, err_name
+from ..core import Case, err_name, dec_val
 from ..seqcheck import SeqProp
 
 
@@ -21,7 +21,7 @@ class Prop(SeqProp):
     thorough_cases = 6000
     rule = ("random operation sequences (append/prepend/extend/pre_extend/remove/pop_back/pop_front/move_to_front/"
             "move_to_back/move_after/rotate) on member nodes chosen by identity, payload classes {distinct, all equal, "
-            "__eq__ raises}; after every op forward walk, backward walk, len, head, tail and every (prev,next) pair are "
+            "__eq__ raises, falsy objects}, constructor with data and one-shot iterables for the extends, payload returned by pops; after every op forward walk, backward walk, len, head, tail and every (prev,next) pair are "
             "compared with the Lean model; distinct = distinct op sequence, non-trivial = at least 3 ops and a move/rotate/remove")
     trusted_base = ["Lean 4.33.0 kernel", "axioms: propext, Classical.choice, Quot.sound (audited per theorem)",
                     "hand-written model Model/Dll.lean tied to lists.py by this correspondence run",
@@ -45,7 +45,7 @@ class Prop(SeqProp):
             yield self.gen_one(rng, tier)
 
     def gen_one(self, rng, tier):
-        payload = rng.choice(["distinct", "equal", "eqraises"])
+        payload = rng.choice(["distinct", "equal", "eqraises", "falsy"])
         max_len = rng.choice([6, 12, 40, 120 if tier != "quick" else 60])
         length = rng.randint(1, max_len)
         ops = []
@@ -174,6 +174,8 @@ class Prop(SeqProp):
                 return counter[0]
             if kind == "equal":
                 return 7
+            if kind == "falsy":
+                return dec_val(counter[0] % 6)
             return EqRaises()
 
         l = DoublyLinkedList()
@@ -222,7 +224,12 @@ class Prop(SeqProp):
                     n = l.prepend(payload()); reg(n); out.append(fin(f"ret {name(n)}"))
                 elif w[0] == "extend":
                     k = int(w[1]); old_tail = l.tail
-                    l.extend([payload() for _ in range(k)])
+                    vals = [payload() for _ in range(k)]
+                    if not out and old_tail is None and k % 2 == 1:
+                        # a first extend on the fresh list is what the constructor does with its `data` argument
+                        l = DoublyLinkedList(iter(vals))
+                    else:
+                        l.extend(vals if k % 3 else iter(vals))  # any iterable, one-shot ones included
                     n = l.head if old_tail is None else old_tail.next_node
                     cnt = 0
                     while n is not None and cnt < k:
@@ -230,7 +237,8 @@ class Prop(SeqProp):
                     out.append(fin("ok"))
                 elif w[0] == "pre_extend":
                     k = int(w[1]); old_head = l.head
-                    l.pre_extend([payload() for _ in range(k)])
+                    vals = [payload() for _ in range(k)]
+                    l.pre_extend(vals if k % 3 else iter(vals))
                     n = l.tail if old_head is None else old_head.prev_node
                     cnt = 0
                     while n is not None and cnt < k:
@@ -248,9 +256,11 @@ class Prop(SeqProp):
                         out.append("bad-op"); continue
                     l.move_after(nodes[i], nodes[j]); out.append(fin("ok"))
                 elif w[0] == "pop_back":
-                    t = l.tail; l.pop_back(); out.append(fin(f"ret {name(t)}"))
+                    t = l.tail; r = l.pop_back()
+                    out.append(fin(f"ret {name(t)}") + ("" if r is t.data else " wrong-payload-returned"))
                 elif w[0] == "pop_front":
-                    h = l.head; l.pop_front(); out.append(fin(f"ret {name(h)}"))
+                    h = l.head; r = l.pop_front()
+                    out.append(fin(f"ret {name(h)}") + ("" if r is h.data else " wrong-payload-returned"))
                 elif w[0] == "rot":
                     l.rotate(front_to_back=(w[1] == "1")); out.append(fin("ok"))
                 elif w[0] == "quiet":
